@@ -523,6 +523,8 @@ def partial_eval(folder: Folder, func_node: ast.FunctionDef, mod, cls, env: Dict
                 try:
                     return ("return", fold(st.value))
                 except Unfoldable as e:
+                    if "invalid literal" in str(e) or "could not convert" in str(e):
+                        return ("raise", "ValueError")
                     return ("unknown", f"return `{src(st.value)}`: {e}")
                 except KeyError as e:
                     return ("raise", "KeyError")
